@@ -73,6 +73,14 @@ func Path(v ssa.Value) string {
 	case *ssa.Extract:
 		return fmt.Sprintf("%s#%d", Path(x.Tuple), x.Index)
 	case *ssa.Call:
+		// an accessor returning a field of its receiver reads as that field of the receiver argument
+		if b := thinBase(x); b != nil {
+			if k := FieldKey(x); k != "" {
+				if i := strings.Index(k, "."); i >= 0 {
+					return Path(b) + k[i:]
+				}
+			}
+		}
 		if f := x.Call.StaticCallee(); f != nil {
 			var as []string
 			for _, a := range x.Call.Args {
